@@ -171,4 +171,6 @@ def run(ck):
             ck.ok("L6.sanitized", s.where(), "putInt64(CONTENT_LENGTH, clen.value)")
         else:
             ck.violation("L6.sanitized", "L6.sanitized|value", s.where(), "Content-Length is rewritten to %s, not clen.value" % E.key(E.strip(s.ev["x"])["a"][1]))
+    from .C03 import list_scan_complete
+    list_scan_complete(ck, rule="L7.list-scan-complete", pid="C26")
     ck.assume("numeric exactness of httpHeaderParseOffset (C27) and strListGetItem's item boundaries are not decided; how callers use conflictingContentLength() is C03")
